@@ -34,7 +34,7 @@ TRUSTED = {
     "A7": "A7: io.BytesIO read/write behave as a cursor over a byte sequence",
     "A8": "A8: sorted, dict, deque, set behave as documented",
     "A9": "A9: threading.Lock gives mutual exclusion and is not re-entrant; single dict/list element loads and stores are atomic under CPython",
-    "A10": "A10: f-string integer formatting yields zero-padded decimal digits",
+    "A10": "A10: Python string semantics as modelled in pyvc/symstr.py: format(int, spec)/str(int) yield decimal digits with '-' and zero padding; indexing, slicing, concatenation, ==, ordering by code point; c.isdigit() is true for '0'..'9' and false for every other character below U+0080; int(ASCII digits) is their positional value; ASCII lower()/upper()",
     "A11": "A11: closed initialisers are deterministic (table entries themselves are obligations)",
     "A12": "A12: time.time_ns() is the operating-system time",
     "A13": "A13: IEEE-754 doubles: timedelta.total_seconds() and one multiplication are correctly rounded (relative error <= 2**-53 each) and exact on integers below 2**53; Decimal(float) is exact",
@@ -42,7 +42,7 @@ TRUSTED = {
 
 
 # properties whose claim is deliberately not "proof" even when every obligation is discharged (schedule quantifiers)
-FORCED_LEVEL = {"C19": "other", "C13": "other", "C14": "other"}  # properties whose contracts cover only part of the statement
+FORCED_LEVEL = {"C19": "other", "C13": "other", "C14": "other", "C07": "other", "C08": "other"}  # properties whose contracts cover only part of the statement
 
 
 def _load_contract_modules() -> None:
